@@ -647,6 +647,15 @@ class Gen:
             oblig = prefix + '.' + f.name
             if '$VARIANT' in contract:
                 contract = contract.replace('$VARIANT', self.variant_of_hook(f.name))
+            if '$BVARIANT' in contract:
+                # builder method `call_indirect[_at]` / `return_` / `const_` -> variant + its fields in declaration order,
+                # both from the UNEXPANDED `enum Instr` (src/ir/mod.rs), i.e. independent of the macro's output
+                import unit_f
+                key = re.sub(r'_$', '', re.sub(r'_at$', '', f.name))
+                found = [(n, fs) for n, fs in unit_f.variants(self) if re.sub(r'(?<!^)([A-Z])', r'_\1', n).lower() == key]
+                if len(found) != 1:
+                    raise LostAnchor('no Instr variant for builder method ' + f.name)
+                contract = contract.replace('$BVARIANT', found[0][0]).replace('$BFIELDS', ', '.join(fn for fn, _ in found[0][1]))
             skipbody = 'skipbody' in attrs
             attrs = [a for a in attrs if a != 'skipbody']
             if mode == 'bodies' and (f.body_open is None or skipbody):
